@@ -1,6 +1,58 @@
-(* C07 - statements only; proofs in the *Facts.v files. (grows) *)
-From Sbdf Require Import Va VaFacts PrimFacts ObjFacts.
-Theorem C07_value_array_wire : forall swp v, wf_va v -> byte_ok (vty v) ->
-  wspec (va_write swp v) (Ok tt) (enc_va swp v) /\ rspec (va_read swp None) (enc_va swp v) v.
-Proof. intros swp v W B. split; [exact (wspec_va swp v W)|exact (rspec_va swp v W B)]. Qed.
-Print Assumptions C07_value_array_wire.
+(* C07 — skipping and column-subset reads are equivalent to full reads.
+   Statements only; proofs in PrimFacts, ObjFacts, VaFacts, SliceFacts.
+   enc_* are the wire forms (proved in C03 to be what the writers emit); `tail` is whatever
+   follows the section in the stream; both sides return Ok with the same rest of the stream,
+   i.e. the same status and the same end position. *)
+From Sbdf Require Import Slice PrimFacts ObjFacts VaFacts SliceFacts.
+
+Theorem C07_string_skip : forall swp s tail, zlen s < 2147483647 ->
+  skip_string swp (enc_string swp s ++ tail) = Ok (tt, tail) /\
+  read_string swp None (enc_string swp s ++ tail) = Ok (s, tail).
+Proof.
+  intros swp s tail H. split; [apply skip_string_exact; lia|]. destruct (rspec_string swp s H) as [E _]. apply E.
+Qed.
+Print Assumptions C07_string_skip.
+
+Theorem C07_object_array_skip : forall swp o tail, wf_obj o ->
+  obj_skip_arr swp (oty o) (enc_obj_arr swp o ++ tail) = Ok (tt, tail) /\
+  obj_read_arr swp None (oty o) (enc_obj_arr swp o ++ tail) = Ok (o, tail).
+Proof.
+  intros swp o tail W. split; [now apply obj_skip_arr_exact|]. destruct (rspec_obj_read_arr swp o W) as [E _]. apply E.
+Qed.
+Print Assumptions C07_object_array_skip.
+
+(* every encoding (plain, run-length with any runs, bit), every value type *)
+Theorem C07_value_array_skip : forall swp v tail, wf_va v -> byte_ok (vty v) ->
+  va_skip swp (enc_va swp v ++ tail) = Ok (tt, tail) /\ va_read swp None (enc_va swp v ++ tail) = Ok (v, tail).
+Proof.
+  intros swp v tail W B. split; [now apply va_skip_exact|]. destruct (rspec_va swp v W B) as [E _]. apply E.
+Qed.
+Print Assumptions C07_value_array_skip.
+
+Theorem C07_column_slice_skip : forall swp c tail, wf_cs c ->
+  cs_skip swp (enc_cs swp c ++ tail) = Ok (tt, tail) /\ cs_read swp None (enc_cs swp c ++ tail) = Ok (owned_cs c, tail).
+Proof.
+  intros swp c tail W. split; [now apply cs_skip_exact|]. destruct (rspec_cs swp c W) as [E _]. apply E.
+Qed.
+Print Assumptions C07_column_slice_skip.
+
+(* a subset read returns the selected columns as the full read does, leaves the others absent
+   and ends at the same position, for every subset; sbdf_ts_skip likewise *)
+Theorem C07_subset_read : forall swp cols subset tail, wf_ts cols ->
+  ts_read swp None (zlen cols) subset (enc_ts swp cols ++ tail) = Ok ({| tscols := mask subset cols; tsowned := true |}, tail) /\
+  ts_read swp None (zlen cols) None (enc_ts swp cols ++ tail) = Ok (owned_ts cols, tail) /\
+  ts_skip swp None (zlen cols) (enc_ts swp cols ++ tail) = Ok (tt, tail).
+Proof.
+  intros swp cols subset tail W. split; [now apply ts_read_exact|]. split; [|now apply ts_skip_exact].
+  destruct (rspec_ts swp cols W) as [E _]. apply E.
+Qed.
+Print Assumptions C07_subset_read.
+
+(* what "selected columns identical, others absent" means *)
+Theorem C07_mask_all : forall cols, mask None cols = map (fun c => Some (owned_cs c)) cols.
+Proof. exact mask_none. Qed.
+Print Assumptions C07_mask_all.
+
+Example C07_mask_example : forall a b c : cs va,
+  mask (Some [1; 0; 1]) [a; b; c] = [Some (owned_cs a); None; Some (owned_cs c)].
+Proof. reflexivity. Qed.
